@@ -1,6 +1,6 @@
 (** C19 — property theorems only.  Each is closed by [exact] of a lemma proved in C19_Proofs*.v. *)
 From Coq Require Import ZArith List Reals Sorting.Permutation Sorting.Sorted.
-From LP Require Import Num NumR OrdLaws C19_Model C19_Proofs C19_Proofs_Lists C19_Proofs_Stats.
+From LP Require Import Num NumR OrdLaws C19_Model C19_Proofs C19_Proofs_Lists C19_Proofs_Stats C19_Proofs_Overloads.
 Import ListNotations.
 
 (** ** Workload_Distribution(workers,tasks): workers+1 non-decreasing indices from 0 to tasks whose
@@ -43,12 +43,36 @@ Theorem C19_range_spec (min max step : Z) :
 Proof. exact (range_spec min max step). Qed.
 Print Assumptions C19_range_spec.
 
+(** the other two ways of calling Range: Range(min,max) uses the default step 1; Range(max) is the range from 0 to
+    max, i.e. 0, 1, ..., max-1 for max > 0, 0, -1, ..., max+1 for max < 0 (descending when min > max), empty for 0 *)
+Theorem C19_range_two_args (min max : Z) :
+  ((min < max -> range2 min max = Some (map (fun k => min + Z.of_nat k) (seq 0 (Z.to_nat (max - min))))) /\
+   (max < min -> range2 min max = Some (map (fun k => min - Z.of_nat k) (seq 0 (Z.to_nat (min - max))))) /\
+   (min = max -> range2 min max = Some []))%Z.
+Proof. exact (range2_spec min max). Qed.
+Print Assumptions C19_range_two_args.
+
+Theorem C19_range_one_arg (max : Z) :
+  (range1 max = range2 0 max /\
+   (0 < max -> range1 max = Some (map Z.of_nat (seq 0 (Z.to_nat max)))) /\
+   (max < 0 -> range1 max = Some (map (fun k => - Z.of_nat k) (seq 0 (Z.to_nat (- max))))) /\
+   (max = 0 -> range1 max = Some []))%Z.
+Proof. exact (range1_spec max). Qed.
+Print Assumptions C19_range_one_arg.
+
 (** ** List templates against the standard list functions *)
 Theorem C19_lists_equal {A : Type} (eqb : A -> A -> bool) :
   (forall a b, eqb a b = true <-> a = b) ->
   forall v1 v2 : list A, lists_equal eqb v1 v2 = true <-> v1 = v2.
 Proof. exact (lists_equal_spec eqb). Qed.
 Print Assumptions C19_lists_equal.
+
+(* the overload for lists of lists *)
+Theorem C19_lists_equal_nested {A : Type} (eqb : A -> A -> bool) :
+  (forall a b, eqb a b = true <-> a = b) ->
+  forall v1 v2 : list (list A), lists_equal2 eqb v1 v2 = true <-> v1 = v2.
+Proof. exact (lists_equal2_spec eqb). Qed.
+Print Assumptions C19_lists_equal_nested.
 
 Theorem C19_flatten_concat {A : Type} (v : list (list A)) : flatten_list v = concat v.
 Proof. exact (flatten_concat v). Qed.
@@ -126,6 +150,15 @@ Theorem C19_transpose_exit_iff {A : Type} (d : A) (lists : list (list A)) :
   <-> exists l0 rest, lists = l0 :: rest /\ exists l, In l rest /\ length l <> length l0.
 Proof. exact (transpose_exit_iff d lists). Qed.
 Print Assumptions C19_transpose_exit_iff.
+
+(* the two-list overload Transpose_Lists(v1,v2): the list of pairs, or exit when the lengths differ *)
+Theorem C19_transpose_two_lists {A : Type} (d : A) (v1 v2 : list A) :
+  (length v1 = length v2 ->
+     exists t, transpose_lists2 d v1 v2 = Ok t /\ length t = length v1 /\
+       forall j, (j < length v1)%nat -> nth j t [] = [nth j v1 d; nth j v2 d]) /\
+  (length v1 <> length v2 -> transpose_lists2 d v1 v2 = Exit).
+Proof. exact (transpose2_spec d v1 v2). Qed.
+Print Assumptions C19_transpose_two_lists.
 
 (** ** Locate_Closest_Location: for a sorted non-empty list the returned index is in range and its element
     is nearest to the target (ties, targets below the first and above the last element included);
@@ -285,6 +318,25 @@ Theorem C19_median_perm (l l' : list R) :
 Proof. exact (median_perm l l'). Qed.
 Print Assumptions C19_median_perm.
 
+(** Median reorders the caller's vector (std::nth_element): a second call on the same vector gives the same value,
+    the vector stays a permutation of the data, and so every later statistic of it is unchanged *)
+Theorem C19_median_twice (l : list R) :
+  let '(m1, m2, l2) := median_twice ROps l in
+  m1 = median ROps l /\ m2 = median ROps l /\ Permutation l2 l.
+Proof. exact (median_twice_spec l). Qed.
+Print Assumptions C19_median_twice.
+
+Theorem C19_stats_after_reordering (l l' : list R) : Permutation l' l ->
+  median ROps l' = median ROps l /\ arithmetic_mean ROps l' = arithmetic_mean ROps l /\
+  variance ROps l' = variance ROps l /\ standard_deviation ROps l' = standard_deviation ROps l.
+Proof. exact (stats_after_reordering l l'). Qed.
+Print Assumptions C19_stats_after_reordering.
+
+(** "reduce to each other": the median of two data is their arithmetic mean *)
+Theorem C19_median_pair_is_mean (a b : R) : median ROps [a; b] = arithmetic_mean ROps [a; b].
+Proof. exact (median_pair_is_mean a b). Qed.
+Print Assumptions C19_median_pair_is_mean.
+
 (** ** Weighted_Average with equal weights w > 0: (arithmetic mean, s / sqrt N) *)
 Theorem C19_weighted_equal_weights (w : R) (d : list (R * R)) :
   0 < w -> (2 <= length d)%nat -> (forall p, In p d -> snd p = w) ->
@@ -292,3 +344,10 @@ Theorem C19_weighted_equal_weights (w : R) (d : list (R * R)) :
   (arithmetic_mean ROps (map fst d), standard_deviation ROps (map fst d) / sqrt (INR (length d))).
 Proof. exact (weighted_equal_weights w d). Qed.
 Print Assumptions C19_weighted_equal_weights.
+
+(* data points constructed from a value only (default weight 1) *)
+Theorem C19_weighted_default_weights (l : list R) :
+  weighted_average_default ROps l =
+  (arithmetic_mean ROps l, standard_deviation ROps l / sqrt (INR (length l))).
+Proof. exact (weighted_default_weights l). Qed.
+Print Assumptions C19_weighted_default_weights.
